@@ -21,6 +21,8 @@ import (
 	"istio.io/istio/pilot/pkg/networking"
 	"istio.io/istio/pilot/pkg/security/authn"
 	"istio.io/istio/pkg/log"
+	"istio.io/istio/pkg/maps"
+	"istio.io/istio/pkg/slices"
 )
 
 var authnLog = log.RegisterScope("authn", "authn debugging")
@@ -82,7 +84,8 @@ func (b *Builder) ForPassthrough() []authn.MTLSSettings {
 	}
 
 	// Then generate the per-port passthrough filter chains.
-	for port := range b.applier.PortLevelSetting() {
+	// in port order: the filter chains of virtualInbound are built in the order of this list
+	for _, port := range slices.Sort(maps.Keys(b.applier.PortLevelSetting())) {
 		// Skip the per-port passthrough filterchain if the port is already handled by InboundMTLSConfiguration().
 		if !needPerPortPassthroughFilterChain(port, b.proxy) {
 			continue
